@@ -125,7 +125,7 @@ func c15Run(steps []c15Step, fsKind ...string) *Case {
 		_ = i
 		key.WriteString(s.Op + ":" + s.File + s.Entry + s.Mtime + ";")
 		switch s.Op {
-		case "edit", "invalid", "edit-fm", "edit-body":
+		case "edit", "invalid", "edit-fm", "edit-body", "empty-body", "empty-file":
 			if s.Op != "edit-fm" {
 				version[s.File]++
 			}
@@ -150,6 +150,18 @@ func c15Run(steps []c15Step, fsKind ...string) *Case {
 			content := c15Content(s.File, fmVersion[s.File], version[s.File])
 			if s.Op == "invalid" {
 				content = "---\n: : bad: [yaml\n---\n<p>broken</p>"
+			}
+			// a file reduced to its front-matter (no template text after the closing fence), and a file of no bytes at all: states
+			// like any other - the next render shows them
+			if s.Op == "empty-body" {
+				if i := strings.Index(content[3:], "\n---\n"); strings.HasPrefix(content, "---") && i >= 0 {
+					content = content[:3+i+5]
+				} else {
+					content = ""
+				}
+			}
+			if s.Op == "empty-file" {
+				content = ""
 			}
 			mfs[s.File] = &fstest.MapFile{Data: []byte(content), ModTime: mt[s.File]}
 			obs = append(obs, nil)
@@ -295,11 +307,12 @@ func runC15(r *Run, replay *Case) {
 		}
 		c15Solo(r, n)
 	}()
-	r.Res.Rule = "histories over {edit (whole file / front-matter only / body only), make invalid, delete, recreate(edit after delete), touch, render via 4 entry points} x {page, component, layout} x mtime {advance, back by seconds, advance, back by milliseconds within one second}; " +
+	r.Res.Rule = "histories over {edit (whole file / front-matter only / body only / down to the front-matter alone / down to no bytes), make invalid, delete, recreate(edit after delete), touch, render via 4 entry points} x {page, component, layout} x mtime {advance, back by seconds, advance, back by milliseconds within one second}; " +
 		"exhaustive for short histories (every single mutation between two renders via every pair of entry points), random up to 10 steps; non-trivial = contains a mutation between two renders"
 	var muts []c15Step
 	for _, f := range c15Files {
 		muts = append(muts, c15Step{Op: "edit-fm", File: f, Mtime: "advance"}, c15Step{Op: "edit-body", File: f, Mtime: "advance"}, c15Step{Op: "edit-fm", File: f, Mtime: "back"})
+		muts = append(muts, c15Step{Op: "empty-body", File: f, Mtime: "advance"}, c15Step{Op: "empty-file", File: f, Mtime: "advance"})
 		muts = append(muts, c15Step{Op: "edit", File: f, Mtime: "advance-ms"}, c15Step{Op: "edit-body", File: f, Mtime: "advance-ms"}, c15Step{Op: "edit-fm", File: f, Mtime: "back-ms"})
 		muts = append(muts, c15Step{Op: "edit", File: f, Mtime: "advance"}, c15Step{Op: "edit", File: f, Mtime: "back"}, c15Step{Op: "invalid", File: f, Mtime: "advance"}, c15Step{Op: "delete", File: f}, c15Step{Op: "touch", File: f})
 	}
